@@ -125,7 +125,7 @@ func vhLogR(i int) {
 		return
 	}
 	vhRed++
-	if vhRed > 20000 {
+	if vhRed > 600+40*len(vhToks) {
 		fmt.Printf("DIVERGE\n")
 		panic("vh-diverge")
 	}
@@ -234,7 +234,7 @@ func (c *Case) tsEpilogue() string {
 	sb.WriteString(`
 function vhLogR(i :number) {
 	vhRed++;
-	if (vhRed > 20000) {
+	if (vhRed > 600 + 40 * vhToks.length) {
 		vhLines.push("DIVERGE");
 		throw new Error("vh-diverge");
 	}
